@@ -600,6 +600,24 @@ class Evaluator:
             return r.get('name'), r.get('id'), r.get('kind'), f
         return None, None, None, f
 
+    def e_CXXNewExpr(self, n, st):
+        inner = [c for c in n.get('inner', []) if c.get('kind')]
+        loc = ('var', '$heap', st.fresh())
+        if inner:
+            for st2, t in self.eval(inner[-1], st):
+                st2.store[loc] = t
+                st2.ev('new', loc, site_of(n, st2))
+                yield st2, ('addr', loc)
+        else:
+            st.ev('new', loc, site_of(n, st))
+            yield st, ('addr', loc)
+
+    def e_CXXDeleteExpr(self, n, st):
+        inner = [c for c in n.get('inner', []) if c.get('kind')]
+        for st2, t in self.rv(inner[0], st):
+            st2.ev('delete', t, site_of(n, st2))
+            yield st2, ('void',)
+
     def e_LambdaExpr(self, n, st):
         rec = next((c for c in n.get('inner', []) if c.get('kind') == 'CXXRecordDecl'), None)
         ops_ = [c for c in (rec or {}).get('inner', []) if c.get('kind') == 'CXXMethodDecl' and c.get('name') == 'operator()']
